@@ -574,6 +574,9 @@ func (pf *pfunc) numberAt(v ssa.Value, at ppos, subst map[ssa.Value]*vn) *vn {
 					return pf.mk("append", x.Type(), pf.uniq("ap"), token.ILLEGAL, g(cm.Args[0]), g(cm.Args[1]))
 				}
 				return g(cm.Args[0])
+			case "copy":
+				// the number of bytes copied: min(len(dst), len(src))
+				return pf.mk("copy", x.Type(), pf.uniq("cp"), token.ILLEGAL, g(cm.Args[0]), g(cm.Args[1]))
 			}
 		}
 		if sc := cm.StaticCallee(); sc != nil && subst == nil || sc != nil && pf.inlineDepth < 3 {
@@ -1055,6 +1058,16 @@ func (pf *pfunc) linOfD(n *vn, depth int) *lin {
 				return pf.linOfD(n.args[0], depth+1)
 			}
 		}
+	case "copy":
+		// min(len(dst), len(src)): decided when one length exceeds the other by a sum of lengths
+		ld := pf.linOfD(pf.mkLen(n.args[0]), depth+1)
+		ls := pf.linOfD(pf.mkLen(n.args[1]), depth+1)
+		if nonNegLenSum(ld.sub(ls)) {
+			return ls
+		}
+		if nonNegLenSum(ls.sub(ld)) {
+			return ld
+		}
 	case "len":
 		a := n.args[0]
 		switch a.op {
@@ -1084,6 +1097,22 @@ func (pf *pfunc) linOfD(n *vn, depth int) *lin {
 		}
 	}
 	return linAtom(n)
+}
+
+// nonNegLenSum: a linear form that is a non-negative constant plus non-negative multiples of lengths.
+func nonNegLenSum(l *lin) bool {
+	if l.c.Sign() < 0 {
+		return false
+	}
+	for k, co := range l.coef {
+		if co.Sign() < 0 {
+			return false
+		}
+		if a := l.atoms[k]; a == nil || (a.op != "len" && a.op != "cap") {
+			return false
+		}
+	}
+	return true
 }
 
 // resultLen: fixed result lengths of trusted external functions (contracts).
@@ -1160,6 +1189,27 @@ func valueRange(x *vn) (lo, hi *big.Int, ok bool) {
 		return nil, nil, false
 	}
 	switch x.op {
+	case "lookup", "index", "extract":
+		// an element of a constant table lies between its smallest and largest entry
+		if x.op == "extract" {
+			if x.name != "0" || len(x.args) != 1 || x.args[0].op != "lookup" {
+				break
+			}
+			x = x.args[0]
+		}
+		if len(x.args) == 2 {
+			a := x.args[0]
+			for a != nil && (a.op == "load" || a.op == "conv") && len(a.args) >= 1 {
+				a = a.args[0]
+			}
+			if a != nil && a.op == "global" {
+				if g, ok := a.val.(*ssa.Global); ok {
+					if tab := constTableOf(theProg, g); tab != nil && tab.lo.Cmp(tlo) >= 0 && tab.hi.Cmp(thi) <= 0 {
+						return tab.lo, tab.hi, true
+					}
+				}
+			}
+		}
 	case "call":
 		if callRangeHook != nil {
 			if l2, h2, ok2 := callRangeHook(x); ok2 && l2.Cmp(tlo) >= 0 && h2.Cmp(thi) <= 0 {
